@@ -441,8 +441,9 @@ func parentMain() {
 			if dc := os.Getenv("C09_DUMP_CLASS"); dc != "" && f.Class == dc {
 				fmt.Printf("DUMP %s %s\n", f.Class, f.What)
 			}
-			var rep any
-			json.Unmarshal(f.Replay, &rep)
+			// json.RawMessage keeps the document byte for byte: decoding into `any` would turn the nanosecond
+			// timestamps into float64 and round them
+			rep := json.RawMessage(f.Replay)
 			keepExample(f.Class, f.What, rep)
 			r.Violate(f.Class, f.What, rep)
 		}
@@ -498,8 +499,7 @@ func parentMain() {
 					totals.crashedUnits = append(totals.crashedUnits, u.name())
 					totals.classes[class]++
 					totals.outcomes["crash"]++
-					var rep any
-					json.Unmarshal(describe(us, ui, seq), &rep)
+					rep := describe(us, ui, seq)
 					what := fmt.Sprintf("%s: a panic in a stage goroutine kills the whole process (%s); the rest of this unit was not run",
 						q.String(), msg)
 					keepExample(class, what, rep)
@@ -603,10 +603,10 @@ func replayMain(r *ev.Run, scratch string, known []string) {
 		deaths++
 	}
 	doc, _ := loadReplay(r.Replay)
-	var rep any
+	var rep json.RawMessage
 	if doc != nil {
 		b, _ := json.Marshal(doc)
-		json.Unmarshal(b, &rep)
+		rep = b
 	}
 	r.AddEval(1)
 	r.States, r.Transitions = 1, 1
